@@ -396,7 +396,7 @@ func c01(p *an.Prog, r *an.R, tier string) {
 			var why func(cond ast.Expr, truth bool) string
 			why = func(cond ast.Expr, truth bool) string {
 				for _, rs := range reasons {
-					if an.Implied(an.ExpandBoolLocals(info, d.Decl.Body, cond), truth, rs.holds) {
+					if an.ImpliedX(info, d.Decl.Body, cond, truth, rs.holds) {
 						return rs.name
 					}
 				}
